@@ -20,13 +20,81 @@ func init() {
 			"R01-optable/R01-layout — every opcode constant has a non-nil jumpTable handler and an opProps row, the operand fields derived from opcode.go's getters/setters tile the 32-bit word and agree with the size/max constants; " +
 			"R01-decode — every shift/mask a VM handler applies to an instruction word is one of the canonical field extractions, the fields a handler decodes fit the instruction format (ABC/ABx/ASbx) declared for its opcode, and sBx is decoded with the encoder's bias; " +
 			"R01-alloc — the number-boxing allocator only appends to its page and replaces it by a fresh one, preloads is written only by init; R01-emit — every opcode the compiler emits is emitted through the encoder matching its declared format and every opcode has an emission site. " +
-			"R01-operands — in every VM handler all RK operand reads precede the handler's first register write (an operand may live in the destination register, or in a register the handler also writes); R15-mathmap luaModulo shape shared (the % operator's sign adjustment). NOT decided: that the instruction sequence emitted for a statement/expression computes the Lua result (register allocation, jump threading, coercions, evaluation order) — a statement about run-time values.",
+			"R01-assign — in the compiler every shortcut that stores into an assignment target, or leaves a local to be read in place, while right-hand sides are still being compiled is guarded by 'exactly one target' (multiple assignment evaluates everything before any store); R01-operands — in every VM handler all RK operand reads precede the handler's first register write (an operand may live in the destination register, or in a register the handler also writes); R01-threading — the jump-threading pass, which patches in place in ascending pc order and follows chains through the live code, interprets an sBx as a label only for a word at or after the current pc (earlier words are already patched and hold distances); R01-peephole — a peephole that removes or retargets the last emitted MOVE/LOADK tests that word's destination register as well as its opcode (the last word may be a capture pseudo-instruction of a CLOSURE or the load of another register); R01-callregs — a call is laid out in fresh registers starting at the caller-supplied temporary (never in the register of an existing local, which the callee expression or the arguments may still read), and the explist of a generic for is assigned to exactly the three hidden variables; R15-mathmap luaModulo shape shared (the % operator's sign adjustment). NOT decided: that the instruction sequence emitted for a statement/expression computes the Lua result (register allocation, jump threading, coercions, evaluation order) — a statement about run-time values.",
 		Trusted: []string{"opcode semantics are those of the handler bodies; only the encoding/decoding agreement is checked"},
-		Rules:   []func(*Ctx){ruleOptable, ruleLayout, ruleDecode, ruleFold, ruleAlloc, ruleEmit, ruleOperandOrder, ruleModuloSign},
+		Rules:   []func(*Ctx){ruleOptable, ruleLayout, ruleDecode, ruleFold, ruleAlloc, ruleEmit, ruleOperandOrder, ruleModuloSign, ruleAssign, ruleThreading, rulePeephole, ruleCallFrameRegs},
 	})
 }
 
 // ---------------------------------------------------------------------------------------------
+
+// ruleAssign: 'all right-hand sides and all left-hand prefixes/keys are evaluated before any store'.
+// While the right-hand sides of an assignment statement are being compiled nothing may be stored into
+// a target and no local may be left to be read in place later — unless the statement has exactly one
+// target.  Every such shortcut in compileAssignStmtLeft/Right must be guarded by len(Lhs) == 1.
+func ruleAssign(c *Ctx) {
+	const R = "R01-assign"
+	c.floor(R, 3)
+	p := c.P
+	regF := p.Field("lua", "expcontext", "reg")
+	findLocal := p.Fn("lua", "(*funcContext).FindLocalVar")
+	single := func(g *PCFG, in ssa.Instruction) bool {
+		for _, cd := range g.CondsAtInstr(in) {
+			b, ok := cd.V.(*ssa.BinOp)
+			if !ok {
+				continue
+			}
+			k, isc := constInt(b.Y)
+			if !isc || k != 1 {
+				continue
+			}
+			if !strings.Contains(vkey(b.X), ").Lhs") {
+				continue
+			}
+			op := b.Op
+			if !cd.Sense {
+				op = negate(op)
+			}
+			if op == token.EQL || op == token.LEQ {
+				return true
+			}
+		}
+		return false
+	}
+	shortcuts := map[string]bool{"(*codeStore).PropagateKMV": true, "(*codeStore).PropagateMV": true, "compileExprWithKMVPropagation": true, "compileExprWithMVPropagation": true}
+	for _, name := range []string{"compileAssignStmtLeft", "compileAssignStmtRight"} {
+		fn := c.need(R, "lua", name)
+		if fn == nil {
+			continue
+		}
+		g := p.G(fn)
+		n := 0
+		allInstrs(fn, func(in ssa.Instruction) {
+			if !g.Live(in) {
+				return
+			}
+			what := ""
+			if st, ok := isFieldStore(in, regF); ok {
+				if call, ok := st.Val.(*ssa.Call); ok && call.Call.StaticCallee() == findLocal {
+					what = "the target local's register becomes the destination of its right-hand side"
+				}
+			}
+			if sc := staticCallee(in); sc != nil && shortcuts[fname(sc)] {
+				what = "a local is left to be read in place (" + sc.Name() + ")"
+			}
+			if what == "" {
+				return
+			}
+			n++
+			c.Sites++
+			c.check(single(g, in), R, fmt.Sprintf("%s:shortcut#%d", name, n), p.ipos(in), "guarded by len(Lhs) == 1: "+what,
+				"in a multiple assignment "+what+" while the other right-hand sides are still to be evaluated: 'a, b = b, a' on two locals assigns the new a to b")
+		})
+		if n == 0 {
+			c.und(R, name+":shortcuts", p.pos(fn.Pos()), "no direct-store / in-place shortcut found (the rule lost its anchors)")
+		}
+	}
+}
 
 // ruleOperandOrder: RK operand reads happen before any register write of the handler.
 func ruleOperandOrder(c *Ctx) {
@@ -628,10 +696,10 @@ func ruleDecode(c *Ctx) {
 	// inner-word reads (words following the instruction): which fields may be decoded, derived from
 	// what the compiler places there (confirmed by reading compile.go; see DESIGN §3 C07 R07-skipgroup).
 	inner := map[string]map[string]bool{
-		"OP_MOVEN":    {"A": true, "B": true},         // trailing words are MOVE instructions
-		"OP_TFORLOOP": {"sBx": true},                  // trailing word is a JMP
-		"OP_SETLIST":  {"word": true},                 // raw batch number
-		"OP_CLOSURE":  {"B": true, "op": true},        // MOVE / GETUPVAL capture pseudo-instructions
+		"OP_MOVEN":    {"A": true, "B": true},  // trailing words are MOVE instructions
+		"OP_TFORLOOP": {"sBx": true},           // trailing word is a JMP
+		"OP_SETLIST":  {"word": true},          // raw batch number
+		"OP_CLOSURE":  {"B": true, "op": true}, // MOVE / GETUPVAL capture pseudo-instructions
 	}
 	done := map[*ssa.Function]bool{}
 	for _, o := range t.Ops {
@@ -1098,4 +1166,278 @@ func constsOf(v ssa.Value) []int64 {
 		return nil
 	}
 	return out
+}
+
+// ruleThreading: patchCode rewrites each JMP's sBx from a label id to a distance, in place and in
+// ascending pc order, and follows JMP→JMP chains by reading the live code. A chained word that lies
+// before pc has therefore been patched already: reading its sBx as a label resolves to an unrelated
+// place (F21: the back edge of 'repeat if false then … end … until c' went to the wrong instruction).
+func ruleThreading(c *Ctx) {
+	const R = "R01-threading"
+	c.floor(R, 1)
+	p := c.P
+	fn := c.need(R, "lua", "patchCode")
+	getLabel := p.Fn("lua", "(*funcContext).GetLabelPc")
+	at := p.Fn("lua", "(*codeStore).At")
+	if fn == nil || getLabel == nil || at == nil {
+		c.und(R, "patchCode:anchors", "-", "GetLabelPc / codeStore.At not found")
+		return
+	}
+	g := p.G(fn)
+	loops := g.loops()
+	n := 0
+	for _, cl := range callsTo(fn, getLabel) {
+		// the word whose sBx is the label
+		var word ssa.Value
+		if len(cl.Call.Args) >= 2 {
+			if inner, ok := stripConv(cl.Call.Args[1]).(*ssa.Call); ok && len(inner.Call.Args) == 1 {
+				word = inner.Call.Args[0]
+			}
+		}
+		ph, isPhi := word.(*ssa.Phi)
+		live := false
+		if isPhi {
+			for _, e := range ph.Edges {
+				if ec, ok := e.(*ssa.Call); ok && ec.Call.StaticCallee() == at {
+					live = true
+				}
+			}
+		}
+		n++
+		key := fmt.Sprintf("patchCode:label-lookup#%d", n)
+		if !live {
+			c.ok(R, key, p.ipos(cl), "the word is not re-read from the code being patched")
+			continue
+		}
+		// outer loop induction phi = pc
+		var pcPhi *ssa.Phi
+		for _, li := range loops {
+			if li.Body[cl.Block()] && li.Class == "counter" && li.Header != ph.Block() {
+				for _, in := range li.Header.Instrs {
+					if x, ok := in.(*ssa.Phi); ok {
+						if s, _ := g.induction(x, li); s > 0 && x.Comment == "pc" {
+							pcPhi = x
+						}
+					}
+				}
+			}
+		}
+		guarded := false
+		for _, cd := range g.CondsAtInstr(cl) {
+			b, ok := cd.V.(*ssa.BinOp)
+			if !ok || pcPhi == nil {
+				continue
+			}
+			op := b.Op
+			if !cd.Sense {
+				op = negate(op)
+			}
+			x, y := stripConv(b.X), stripConv(b.Y)
+			if y != pcPhi && x == pcPhi {
+				x, y = y, x
+				op = flip(op)
+			}
+			if y == pcPhi && (op == token.GEQ || op == token.GTR) {
+				if xp, ok := x.(*ssa.Phi); ok && xp.Block() == ph.Block() {
+					guarded = true
+				}
+			}
+		}
+		c.check(guarded, R, key+":only-unpatched", p.ipos(cl), "a chained word's sBx is read as a label only when the word is at or after pc", "patchCode follows a jump chain through the live code and reads the sBx of a word before pc as a label id: that word is already patched and holds a distance, so the threaded jump lands on an unrelated instruction (a loop whose first instruction is an unconditional jump loses its back edge)")
+	}
+}
+
+// rulePeephole: the compiler's peepholes look at the last emitted word. When they recognise it by opcode
+// as a register load (MOVE, LOADK) and then drop or retarget it, they must also have tested its A field:
+// the word may be the capture pseudo-instruction that follows a CLOSURE (MOVE 0, local) or a load into a
+// register other than the temporary the peephole owns.
+func rulePeephole(c *Ctx) {
+	const R = "R01-peephole"
+	c.floor(R, 4)
+	p := c.P
+	getOp := p.Fn("lua", "opGetOpCode")
+	getA := p.Fn("lua", "opGetArgA")
+	lastPC := p.Fn("lua", "(*codeStore).LastPC")
+	if getOp == nil || getA == nil || lastPC == nil {
+		c.und(R, "anchors", "-", "opGetOpCode/opGetArgA/LastPC not found")
+		return
+	}
+	loads := map[int64]string{p.op("OP_MOVE"): "OP_MOVE", p.op("OP_LOADK"): "OP_LOADK"}
+	for _, fn := range p.srcFuncs {
+		if fn.Pkg == nil || fn.Pkg.Pkg.Path() != luaPath || !strings.HasPrefix(p.pos(fn.Pos()), "compile.go:") {
+			continue
+		}
+		g := p.G(fn)
+		n := 0
+		allInstrs(fn, func(in ssa.Instruction) {
+			sc := staticCallee(in)
+			if sc == nil || recvNamed(sc) != "codeStore" {
+				return
+			}
+			call, _ := in.(*ssa.Call)
+			if call == nil {
+				return
+			}
+			switch sc.Name() {
+			case "Pop":
+			case "SetA", "SetB", "SetC", "SetOpCode", "SetSbx", "SetBx":
+				// only rewrites of the last word
+				if len(call.Call.Args) < 2 {
+					return
+				}
+				pc, ok := call.Call.Args[1].(*ssa.Call)
+				if !ok || pc.Call.StaticCallee() != lastPC {
+					return
+				}
+			default:
+				return
+			}
+			// opcode tests on the path
+			type wtest struct {
+				word string
+				op   string
+			}
+			var optests []wtest
+			atests := map[string]bool{}
+			for _, cd := range g.CondsAtInstr(in) {
+				b, ok := cd.V.(*ssa.BinOp)
+				if !ok {
+					continue
+				}
+				for _, side := range []ssa.Value{b.X, b.Y} {
+					cl, ok := stripConv(side).(*ssa.Call)
+					if !ok || len(cl.Call.Args) != 1 {
+						continue
+					}
+					other := b.Y
+					if side == b.Y {
+						other = b.X
+					}
+					switch cl.Call.StaticCallee() {
+					case getOp:
+						if k, ok := constInt(other); ok && b.Op == token.EQL && cd.Sense {
+							if nm, isLoad := loads[k]; isLoad {
+								optests = append(optests, wtest{vkey(cl.Call.Args[0]), nm})
+							}
+						}
+					case getA:
+						atests[vkey(cl.Call.Args[0])] = true
+					}
+				}
+			}
+			for _, t := range optests {
+				n++
+				c.Sites++
+				key := fmt.Sprintf("%s:%s:%s#%d", fname(fn), sc.Name(), t.op, n)
+				c.check(atests[t.word], R, key, p.ipos(in), "the word's destination register is tested together with its opcode", fmt.Sprintf("%s rewrites or drops the last emitted word because its opcode is %s without testing its A field: after a function literal the last word is the capture pseudo-instruction 'MOVE 0, local', so the real move into the destination is never emitted (h = flag or function() return up end leaves h unchanged)", fname(fn), t.op))
+			}
+		})
+	}
+}
+
+// ruleCallFrameRegs: (a) compileFuncCallExpr lays the callee and its arguments out from the temporary
+// register it was given; evaluating the call inside the register of an existing local clobbers that
+// local before the arguments read it and leaves the result where the assignment does not look (F26).
+// (b) compileGenericForStmt assigns the explist to the three hidden variables: the name list it hands to
+// compileRegAssignment has as many entries as hidden variables, so missing values are filled with nil (F27).
+func ruleCallFrameRegs(c *Ctx) {
+	const R = "R01-callregs"
+	c.floor(R, 3)
+	p := c.P
+	if fn := c.need(R, "lua", "compileFuncCallExpr"); fn != nil {
+		var regParam ssa.Value
+		for _, pm := range fn.Params {
+			if pm.Name() == "reg" {
+				regParam = pm
+			}
+		}
+		n, okc := 0, true
+		var site ssa.Instruction = fn.Blocks[0].Instrs[0]
+		opCall := p.op("OP_CALL")
+		for _, e := range p.emitSites(fn) {
+			if !e.emits(opCall) || len(e.Args) < 2 {
+				continue
+			}
+			n++
+			site = e.In
+			if v := resolve(e.Args[1]); v != regParam && !entryLoadOfParam(fn, v, regParam) {
+				okc = false
+			}
+		}
+		c.check(n > 0 && okc, R, "compileFuncCallExpr:frame-starts-at-given-temporary", p.ipos(site), "OP_CALL's A is the temporary register the caller supplied", "compileFuncCallExpr places the callee in a register other than the temporary it was given (the register of an existing local): the local is overwritten before the arguments read it and the result is not where the assignment expects it (a = (g(a)) with a the last parameter)")
+	}
+	// (c) local x = <exp>: the new name is declared after the expression is compiled, so the expression
+	// still sees the enclosing binding of that name; only `local function f` declares first (F24)
+	if fn := c.need(R, "lua", "compileLocalAssignStmt"); fn != nil {
+		g := p.G(fn)
+		cra := p.Fn("lua", "compileRegAssignment")
+		reg := p.Fn("lua", "(*funcContext).RegisterLocalVar")
+		lf := p.Field("ast", "LocalAssignStmt", "LocalFunction")
+		n := 0
+		for _, cl := range callsTo(fn, reg) {
+			// does a compileRegAssignment follow this declaration?
+			b, i := after(cl)
+			follows := g.walk(b, i, func(ssa.Instruction) bool { return false }, func(in ssa.Instruction) bool {
+				return isCallTo(in, cra)
+			})
+			if !follows {
+				continue
+			}
+			n++
+			guarded := false
+			for _, cd := range g.CondsAtInstr(cl) {
+				if _, ok := loadsField(cd.V, lf); ok && cd.Sense && lf != nil {
+					guarded = true
+				}
+			}
+			c.check(guarded, R, fmt.Sprintf("compileLocalAssignStmt:declare-before-value#%d", n), p.ipos(cl), "a local is declared before its initialiser is compiled only for `local function`", "compileLocalAssignStmt declares the new local before compiling its initialiser without testing that the statement is `local function`: in `local print = function(...) print(...) end` the inner name refers to the new local, not to the enclosing binding (endless recursion)")
+		}
+		if n == 0 {
+			c.und(R, "compileLocalAssignStmt:declare-before-value", p.pos(fn.Pos()), "the `local function` path (declare, then compile the body) was not found")
+		}
+	}
+	if fn := c.need(R, "lua", "compileGenericForStmt"); fn != nil {
+		cra := p.Fn("lua", "compileRegAssignment")
+		n, okc := 0, true
+		var site ssa.Instruction = fn.Blocks[0].Instrs[0]
+		for _, cl := range callsTo(fn, cra) {
+			n++
+			site = cl
+			nvars, ok := constInt(cl.Call.Args[4])
+			ln := int64(-1)
+			if sl, isSl := cl.Call.Args[1].(*ssa.Slice); isSl {
+				if pt, ok := sl.X.Type().Underlying().(*types.Pointer); ok {
+					if at, ok := pt.Elem().Underlying().(*types.Array); ok && sl.Low == nil && sl.High == nil {
+						ln = at.Len()
+					}
+				}
+			}
+			if !ok || ln != nvars {
+				okc = false
+			}
+		}
+		c.check(n > 0 && okc, R, "compileGenericForStmt:explist-initialises-three-hidden-variables", p.ipos(site), "the explist is assigned to as many targets as there are hidden variables", "compileGenericForStmt assigns the explist to a target list whose length is not the number of hidden variables (the loop variable names): with fewer than three values the control variable keeps whatever the register held (for k in next, t do … after a concatenation skips keys)")
+	}
+}
+
+// entryLoadOfParam: v loads, in the entry block, the cell a parameter was spilled to, before anything
+// else is stored there (reg's address is taken later in the function, so go/ssa keeps it in memory).
+func entryLoadOfParam(fn *ssa.Function, v, param ssa.Value) bool {
+	u, ok := v.(*ssa.UnOp)
+	if !ok || u.Op != token.MUL || u.Block() != fn.Blocks[0] {
+		return false
+	}
+	stores := 0
+	for _, in := range fn.Blocks[0].Instrs {
+		if in == ssa.Instruction(u) {
+			return stores == 1
+		}
+		if st, ok := in.(*ssa.Store); ok && st.Addr == u.X {
+			if st.Val != param {
+				return false
+			}
+			stores++
+		}
+	}
+	return false
 }
